@@ -280,7 +280,7 @@ def run_unit(unit_name, template_rel, variant):
             ctext, _ = extract.generate(tpl, variant, canary=True)
             ptext = None
             tpl_text_ = open(tpl).read() + "".join(open(os.path.join(VERIF, "contracts", m_)).read() for m_ in re.findall(r"^@@include\s+(\S+)", open(tpl).read(), re.M) if os.path.exists(os.path.join(VERIF, "contracts", m_)))
-            if "@@borrowprobe" in tpl_text_:
+            if "@@borrowprobe" in tpl_text_ or "@@freeprobe" in tpl_text_:
                 ptext, _ = extract.generate(tpl, variant, canary=False, probe=True)
     except ExtractError as e:
         res["status"] = "undecided"
@@ -373,15 +373,32 @@ def run_unit(unit_name, template_rel, variant):
         probes = []
         pidx = fn_index(ptext)
         for i_, l_ in enumerate(plines):
-            pm_ = re.search(r"/\*BORROWPROBE (\S+) (\S+)\*/", l_)
+            pm_ = re.search(r"/\*(BORROWPROBE|FREEPROBE) (\S+) (\S+)\*/", l_)
             if pm_:
                 owner = [q for (s_, e_, q) in pidx if s_ <= i_ + 1 <= e_]
-                probes.append((i_ + 1, pm_.group(1), [x for x in pm_.group(2).split(",") if x.startswith("C")], owner[-1] if owner else pm_.group(1)))
+                probes.append((i_ + 1, pm_.group(2), [x for x in pm_.group(3).split(",") if x.startswith("C")], owner[-1] if owner else pm_.group(2), pm_.group(1) == "FREEPROBE"))
         res["borrow_probes"] = []
         pblocks = [b for b in re.split(r"\n(?=error)", "\n" + (perr or "")) if b.strip().startswith("error")]
-        for (ln, pname, ptags, owner) in probes:
+        for (ln, pname, ptags, owner, must_be_free) in probes:
             hit = [b for b in pblocks if re.search(r"error\[E0(502|499|503|506|505)\]", b) and re.search(r"^\s*%d\s*\|" % ln, b, re.M)]
             other = [b for b in pblocks if not re.search(r"error\[E0(502|499|503|506|505)\]", b) and "aborting due to" not in b]
+            if must_be_free:
+                # the converse probe: a mutable use of the cell right before the foreign call must be ACCEPTED
+                if hit:
+                    res["borrow_probes"].append(dict(probe=pname, status="LENT at a call that may re-enter the cell"))
+                    if owner in res["functions"]:
+                        res["functions"][owner]["ok"] = False
+                    res["failures"].append(dict(function=owner, tags=ptags, kind="lock scope (cell still lent at a re-entrant call)",
+                                                clause=plines[ln - 1].strip(),
+                                                text="`%s` hands control to code that may come back through the same cell while a borrow / lock guard of that cell is still alive (real code: RefCell double borrow panic, Mutex self-deadlock); the borrow checker rejected a use of the cell placed right before the call\n%s" % (pname.rsplit(".", 1)[0], hit[0][:1500])))
+                    res["status"] = "violated"
+                elif other:
+                    res["borrow_probes"].append(dict(probe=pname, status="undecided: " + other[0].split("\n", 1)[0][:200]))
+                    res["status"] = "undecided"
+                    res["undecided"] = "free probe %s could not be evaluated: %s" % (pname, other[0].split("\n", 1)[0][:200])
+                else:
+                    res["borrow_probes"].append(dict(probe=pname, status="free (accepted by the borrow checker, as required)"))
+                continue
             if hit:
                 res["borrow_probes"].append(dict(probe=pname, status="lent (rejected by the borrow checker, as required)"))
             elif other:
